@@ -173,15 +173,20 @@ func (in *interp) steps(steps []ast.Step, v jv.Val, sc *scope, pdepth int, direc
 			out := make([]jv.Val, 0, len(base.A))
 			for _, x := range base.A {
 				x := x
-				r := in.move(func() jv.Val { return in.steps(rhs, x, sc, pdepth+1, s.Kind == ast.SFilter) })
+				r := in.iso(func() jv.Val {
+					return in.move(func() jv.Val { return in.steps(rhs, x, sc, pdepth+1, s.Kind == ast.SFilter) })
+				})
 				if in.failed() {
-					return jv.VNull()
+					continue // keep collecting the faults of the other elements
 				}
 				if r.K == jv.Null {
 					in.ev.NullDropped++
 					continue
 				}
 				out = append(out, r)
+			}
+			if in.failed() {
+				return jv.VNull()
 			}
 			v = jv.Val{K: jv.Arr, A: out, Unordered: base.Unordered}
 		}
@@ -250,11 +255,14 @@ func (in *interp) source(s ast.Step, v jv.Val, sc *scope, pdepth int) (jv.Val, b
 			e := e
 			c := in.move(func() jv.Val { return in.eval(s.Cond, e, sc, pdepth+1) })
 			if in.failed() {
-				return jv.Val{}, false
+				continue
 			}
 			if c.Truthy() {
 				out = append(out, e)
 			}
+		}
+		if in.failed() {
+			return jv.Val{}, false
 		}
 		return jv.Val{K: jv.Arr, A: out, Unordered: v.Unordered}, true
 	case ast.SSlice:
